@@ -813,3 +813,5 @@ B('C20', 'HOL-level parser: multiplication and addition on one level', 'imperati
   '    ?expr: expr "+" expr -> plus_expr | expr "*" expr -> times_expr | atom', 'C20.P1', 'imperative/parser.py :: expr')
 B('C20', 'forall operands printed without brackets', IEXPR,
   "            if isinstance(arg, (ITE, Forall)):", "            if isinstance(arg, ITE):", 'C20.P2', 'open-operand(Forall)')
+B('C19', 'integrals printed with the priority of a function application', 'integral/expr.py',
+  "        elif self.ty in (DERIV, INTEGRAL, EVAL_AT, INDEFINITEINTEGRAL, DIFFERENTIAL):\n            return 10", "        elif self.ty in (DERIV, INTEGRAL, EVAL_AT, INDEFINITEINTEGRAL, DIFFERENTIAL):\n            return 95", 'C19.E5', 'open-construct(Integral)')
